@@ -97,7 +97,7 @@ func (p *Path) caseFromModel(m *Model) *ReplayCase {
 // buildWitness produces a concrete input for a completed path together with what the executor
 // predicts the native run will observe.
 func (p *Path) buildWitness(panicked bool) *ReplayCase {
-	r, mm, _ := p.check(nil, false, true, true, false)
+	r, mm, _ := p.exactModel(nil)
 	if r != Sat {
 		return nil
 	}
